@@ -239,10 +239,73 @@ def build(state: int, event: int, role: str, pv: int, variant: str = "", artim_p
     return assoc, log, fsm_log
 
 
+def stimulate(dul, e, pv=1, variant=""):
+    """Queue what event `e` consumes (a received PDU or a request primitive) behind whatever the
+    previous step left - used for the second step of two-step traces."""
+    from pynetdicom.pdu import A_ABORT_RQ, A_ASSOCIATE_AC, A_ASSOCIATE_RJ, A_ASSOCIATE_RQ, A_RELEASE_RP, A_RELEASE_RQ, P_DATA_TF
+    from pynetdicom.pdu_primitives import A_ABORT, A_P_ABORT, A_RELEASE, P_DATA
+    from pynetdicom.transport import T_CONNECT
+
+    def rel(result):
+        r = A_RELEASE()
+        if result:
+            r.result = "affirmative"
+        return r
+
+    def pdata():
+        p = P_DATA()
+        p.presentation_data_value_list = [[1, b"\x03\x00\x00"]]
+        return p
+
+    def ab():
+        if variant in ("p-abort", "provider"):
+            a = A_P_ABORT()
+            a.provider_reason = 0x02
+        else:
+            a = A_ABORT()
+            a.abort_source = 0
+        return a
+
+    if e == 1:
+        dul.to_provider_queue.put(_rq_primitive())
+    elif e == 2:
+        t = T_CONNECT(_rq_primitive())
+        t.result = "Evt2"
+        dul.to_provider_queue.put(t)
+    elif e == 3:
+        dul._recv_pdu.put(A_ASSOCIATE_AC(_ac_primitive(0)))
+    elif e == 4:
+        dul._recv_pdu.put(A_ASSOCIATE_RJ(_ac_primitive(1)))
+    elif e == 6:
+        pdu = A_ASSOCIATE_RQ(_rq_primitive())
+        pdu.protocol_version = pv
+        dul._recv_pdu.put(pdu)
+    elif e == 7:
+        dul.to_provider_queue.put(_ac_primitive(0))
+    elif e == 8:
+        dul.to_provider_queue.put(_ac_primitive(1))
+    elif e == 9:
+        dul.to_provider_queue.put(pdata())
+    elif e == 10:
+        dul._recv_pdu.put(P_DATA_TF(pdata()))
+    elif e == 11:
+        dul.to_provider_queue.put(rel(False))
+    elif e == 12:
+        dul._recv_pdu.put(A_RELEASE_RQ(A_RELEASE()))
+    elif e == 13:
+        dul._recv_pdu.put(A_RELEASE_RP(rel(True)))
+    elif e == 14:
+        dul.to_provider_queue.put(rel(True))
+    elif e == 15:
+        dul.to_provider_queue.put(ab())
+    elif e == 16:
+        dul._recv_pdu.put(A_ABORT_RQ(ab()))
+
+
 PDU_NAMES = {1: "A-ASSOCIATE-RQ", 2: "A-ASSOCIATE-AC", 3: "A-ASSOCIATE-RJ", 4: "P-DATA-TF", 5: "A-RELEASE-RQ", 6: "A-RELEASE-RP", 7: "A-ABORT"}
 
 
-def observe(state, event, role, pv, variant="", artim_prior="unstarted"):
+def observe(state, event, role, pv, variant="", artim_prior="unstarted", second=None):
     """Run one pair on the real code; return observation dict."""
     import pynetdicom.timer as tmod
     from pynetdicom.fsm import InvalidEventError
@@ -261,6 +324,24 @@ def observe(state, event, role, pv, variant="", artim_prior="unstarted"):
             obs["raised"] = "InvalidEventError"
         except Exception as exc:  # noqa
             obs["raised"] = f"{type(exc).__name__}: {exc}"
+        if second is not None and not obs["raised"]:
+            # two-step trace: keep every queue and the timer as the first action left them, forget the
+            # first action's outputs, feed the second event and observe the second action only
+            while True:
+                try:
+                    dul.to_user_queue.get(False)
+                except _q.Empty:
+                    break
+            del log[:]
+            del fsm_log[:]
+            obs["first_next"] = int(dul.state_machine.current_state[3:])
+            stimulate(dul, second[0], 1, second[1])
+            try:
+                dul.state_machine.do_action(f"Evt{second[0]}")
+            except InvalidEventError:
+                obs["raised"] = "InvalidEventError"
+            except Exception as exc:  # noqa
+                obs["raised"] = f"{type(exc).__name__}: {exc}"
         # what the action did to ARTIM is judged by what the timer then does: will it expire?
         clock.t += 31.0
         obs["artim_will_fire"] = bool(dul.artim_timer.expired)
@@ -311,6 +392,9 @@ def observe(state, event, role, pv, variant="", artim_prior="unstarted"):
     obs["fsm_evt"] = fsm_log
     # a T_CONNECT left by AE-1 is the connect *result* (delivered as Evt2/Evt17), not a leftover
     obs["left_provider_q"] = sum(1 for x in list(dul.to_provider_queue.queue) if type(x).__name__ != "T_CONNECT")
+    # the received PDU this event stands for must have been consumed: a PDU left at the head of the
+    # queue would be taken for the *next* received PDU by a later action
+    obs["left_recv_pdu"] = [type(x).__name__ for x in list(dul._recv_pdu.queue)]
     return obs
 
 
@@ -377,8 +461,8 @@ def compare(state, role, ev, pv_ok, model, obs, variant=""):
     if got_artim != want_artim:
         bad.append(f"{action}: ARTIM operations {obs['artim']}, PS3.8 says {want_artim}")
     prior = obs.get("artim_prior", "unstarted")
-    want_fire = {"none": WILL_FIRE[prior], "start": True, "stop": False, "stopstart": True}[fx["artim"]]
-    if obs["artim_will_fire"] != want_fire:
+    want_fire = {"none": WILL_FIRE.get(prior), "start": True, "stop": False, "stopstart": True}[fx["artim"]]
+    if want_fire is not None and obs["artim_will_fire"] != want_fire:
         bad.append(f"{action}: ARTIM state after the action with the timer {prior} before: {'will expire' if obs['artim_will_fire'] else 'will never expire'}, PS3.8 ({fx['artim']}) says it {'must be running' if want_fire else 'must not be running'}")
     # transport
     if fx["tr"] == "connect":
@@ -486,6 +570,33 @@ def run(ctx: core.Ctx) -> core.Result:
                                     viol.append(core.Violation(k, f"Sta{state} + Evt{ev} ({role}, pv {'ok' if pv_ok else 'bad'}{', ' + variant if variant else ''}): {b}", {"state": state, "event": ev, "role": role, "pv_ok": pv_ok, "variant": variant, "artim_prior": prior}))
                     if (state, ev) in ((2, 6), (7, 12), (6, 13), (1, 3)) and role == "acceptor":
                         samples.append({"state": state, "event": ev, "role": role, "pv_ok": pv_ok, "model": model, "observed": {k: obs[k] for k in ("raised", "next", "pdus", "inds", "artim", "closed")}})
+    # two-step traces of the model: every edge followed by every edge leaving its target state, on the
+    # same real provider object (queues and timer as the first action left them); the second action
+    # is compared with the model exactly like a single edge
+    n_two = 0
+    for state in range(1, 14):
+        for ev in range(1, 20):
+            for role in ("requestor", "acceptor"):
+                o1 = [o for o in exp.get((state, role, ev), set()) if o[0] is True]
+                if not o1 or o1[0][1] == 1:
+                    continue
+                s1 = o1[0][1]
+                for ev2 in range(1, 20):
+                    o2 = [o for o in exp.get((s1, role, ev2), set()) if o[0] is True]
+                    if not o2:
+                        continue
+                    model2 = (o2[0][1], o2[0][2], dict(o2[0][3]))
+                    for variant in {15: ["", "p-abort"], 16: ["", "provider"]}.get(ev2, [""]):
+                        n_two += 1
+                        obs = observe(state, ev, role, 0x0001, "", "unstarted", second=(ev2, variant))
+                        if obs.get("first_next") != s1:
+                            continue  # the first step itself is judged by the single-edge replay
+                        obs["artim_prior"] = "after-first-step"
+                        for b in compare(s1, role, ev2, True, model2, obs, variant):
+                            k = f"Sta{state}-Evt{ev}-then-Evt{ev2}-{model2[1]}{'-' + variant if variant else ''}:{b.split(':')[0][:40]}"
+                            if k not in vkeys:
+                                vkeys.add(k)
+                                viol.append(core.Violation(k, f"Sta{state} + Evt{ev} then Evt{ev2} ({role}{', ' + variant if variant else ''}): {b}", {"state": state, "event": ev, "role": role, "pv_ok": True, "variant": "", "second": [ev2, variant]}))
     # extra: protocol version with bit 0 set plus other bits must be accepted (PS3.8 9.3.2)
     obs = observe(2, 6, "acceptor", 0x0003)
     o = [x for x in exp[(2, "acceptor", 6)] if x[0] is True][0]
@@ -500,7 +611,8 @@ def run(ctx: core.Ctx) -> core.Result:
         "model_states_sanity_run": st_san["distinct"],
         "model_edges_distinct": len(edges),
         "edges_replayed": n_edges,
-        "observations_on_real_code": n_obs,
+        "observations_on_real_code": n_obs + n_two,
+        "two_step_traces_replayed": n_two,
         "artim_histories_per_edge": list(ARTIM_PRIORS),
         "non_edges_replayed": n_non,
         "table_cells_defined_in_model": len({(s, e) for (s, r, e) in exp}),
@@ -522,6 +634,6 @@ def run(ctx: core.Ctx) -> core.Result:
 
 
 def replay(ctx, data):
-    obs = observe(data["state"], data["event"], data["role"], data.get("pv", 1 if data.get("pv_ok", True) else 2), data.get("variant", ""), data.get("artim_prior", "unstarted"))
+    obs = observe(data["state"], data["event"], data["role"], data.get("pv", 1 if data.get("pv_ok", True) else 2), data.get("variant", ""), data.get("artim_prior", "unstarted"), second=tuple(data["second"]) if data.get("second") else None)
     print(obs)
     return 0
